@@ -307,4 +307,19 @@ theorem complete_at_end {cfg : Cfg} (hw : WFCfg cfg) (as : List Action) {s : Sta
     omega
   · exact h
 
+/-- **C02, the exact step set.**  At the end of a run (no failure, every process ended) the steps before `until` a
+simulator has executed are exactly the demanded ones — the initial schedule, the next steps it returned and the
+delayed output times of outputs delivered to its trigger connections — each executed once, in increasing order. -/
+theorem exact_step_set {cfg : Cfg} (hw : WFCfg cfg) (as : List Action) {s : State}
+    (he : exec cfg (initState cfg) as = some s) (hnf : s.failed = none) (hend : ∀ p, p < cfg.n → (s.sims p).pc = .done)
+    {b : Sid} (hb : b < cfg.n) :
+    (∀ x, TT.time x < cfg.until_ → (x ∈ (s.sims b).begun ↔ (x ∈ (cfg.sim b).next0 ∨ DemandedIn cfg (initState cfg) as b x))) ∧
+    (s.sims b).begun.Nodup ∧ (s.sims b).begun.Pairwise (fun later earlier => earlier < later) := by
+  have hr : Reach cfg s := exec_reach as Reach.init he
+  refine ⟨?_, no_duplicate_steps hw hr hnf b hb, steps_strictly_increasing hw hr hnf b hb⟩
+  intro x ht
+  constructor
+  · intro hx; exact only_demanded_steps hw as he hnf b x (Or.inl hx)
+  · intro hx; exact complete_at_end hw as he hnf hend hb hx ht
+
 end Mosaik.C02
